@@ -471,6 +471,89 @@ pub fn run(run: &mut Run) {
         run.cov(&format!("session_{:?}", kind), serde_json::json!({"states": res.states, "transitions": res.transitions, "depth_completed": res.depth_completed, "exhausted": res.exhausted_bound, "cap": res.cap_hit}));
     }
     run.assume("state merging uses value/key classes (empty, numeric, numeric at the i32 edge, text, non-ASCII, long; named template keys keep their identity), which is what a crash can depend on; exact strings are not part of the key");
+    transports(run, quick);
     run.assume("overflow verdicts are for builds with overflow checks (the test profile); the 'seeded random byte strings' tail of the quantifier is sampling and is not used");
     run.assume("link threads created by `join` are parked by the harness (hook H7), so membership is deterministic");
+    run.assume("transport stage: the core alphabet plus raw non-UTF-8 lines over the real TCP server (one connection per line) and the real HTTP server; a second connection must be served and the process-wide panic hook must stay silent; WebSocket frames are not driven");
+}
+
+
+/// the same lines through the real TCP and HTTP servers
+fn transports(run: &mut Run, quick: bool) {
+    let node = Node::new_single("c10-net");
+    let mut admin = Session::new();
+    admin.exec(&node, &format!("auth {} {}", USER, PWD));
+    admin.exec(&node, "create-db t tok none");
+    admin.exec(&node, "use-db t tok");
+    admin.exec(&node, "set k 1");
+    let _ = admin.disconnect(&node);
+    let tcp = crate::tcp::TcpServer::start(node.dbs.clone());
+    let http = crate::http::HttpServer::start(node.dbs.clone());
+    let mut lines: Vec<Vec<u8>> = core_alphabet().into_iter().filter(|l| !l.starts_with("join") && !l.starts_with("debug force-election") && !l.contains("election")).map(|l| l.into_bytes()).collect();
+    if quick {
+        lines = lines.into_iter().step_by(6).collect();
+    }
+    lines.push(vec![0xff, 0xfe, b' ', b'k']);
+    lines.push(b"set k \xff\xfe".to_vec());
+    lines.push(vec![b'g', b'e', b't', b' ', 0xc3]);
+    let panics_before = crate::world::PANIC_COUNT.load(std::sync::atomic::Ordering::SeqCst);
+    let mut n = 0u64;
+    let mut probe_n = 0;
+    let mut probe = tcp.connect();
+    probe.cmd("use-db t tok");
+    for kind in [Kind::Unauth, Kind::Admin] {
+        for line in lines.iter() {
+            n += 1;
+            // TCP: one connection per line
+            {
+                use std::io::Write;
+                let mut c = tcp.connect();
+                if kind == Kind::Admin {
+                    c.cmd(&format!("auth {} {}", USER, PWD));
+                    c.cmd("use-db t tok");
+                }
+                let mut raw = line.clone();
+                raw.push(b'\n');
+                let _ = c.raw().write_all(&raw);
+                let _ = c.read_line_timeout(40);
+                let _ = c.close_and_wait();
+            }
+            // HTTP: the line as a body
+            if let Ok(text) = String::from_utf8(line.clone()) {
+                let body = if kind == Kind::Admin { format!("auth {} {};use-db t tok;{}", USER, PWD, text) } else { text };
+                let _ = http.post(&body);
+            }
+            // a second client is served, correctly
+            probe_n += 1;
+            let got = if probe_n % 25 == 1 {
+                // a brand-new connection every now and then, the long-lived one otherwise
+                let mut p = tcp.connect();
+                p.cmd("use-db t tok");
+                p.cmd(&format!("set probe p{}", probe_n));
+                let got = p.cmd("get probe");
+                p.cmd("remove probe");
+                let _ = p.close_and_wait();
+                got
+            } else {
+                probe.cmd(&format!("set probe p{}", probe_n));
+                let got = probe.cmd("get probe");
+                probe.cmd("remove probe");
+                got
+            };
+            let shown = String::from_utf8_lossy(line).chars().take(80).collect::<String>();
+            if !got.iter().any(|l| l.trim() == format!("value p{}", probe_n)) {
+                run.violate(crate::report::Violation { clause: "later-client-fails".into(), shape: format!("[transport {:?}] {}", kind, shown.split(' ').next().unwrap_or("")), detail: format!("after `{}` over TCP/HTTP a second TCP client got {:?}", shown, got), replay: serde_json::json!({"engine":"transport","line":shown}) });
+                break;
+            }
+            let panics = crate::world::PANIC_COUNT.load(std::sync::atomic::Ordering::SeqCst);
+            if panics != panics_before {
+                let log = crate::world::PANIC_LOG.lock().unwrap().last().cloned().unwrap_or_default();
+                run.violate(crate::report::Violation { clause: "handler-panic".into(), shape: format!("[transport {:?}] {} @ {}", kind, shown.split(' ').next().unwrap_or(""), log.rsplit(" @ ").next().unwrap_or("").replace("/repo/", "")), detail: format!("`{}` over TCP/HTTP: a server thread panicked: {}", shown, log), replay: serde_json::json!({"engine":"transport","line":shown}) });
+                break;
+            }
+        }
+    }
+    run.cov("transport_lines", serde_json::json!(n));
+    run.cov_add("transitions", n);
+    node.remove_dir();
 }
